@@ -52,7 +52,7 @@ def run_case(name, patch: Path, expect, checks):
         sb.mkdir()
         for c in checks:
             t0 = time.time()
-            r = sh([str(VERIF / "check"), c, "--tier", "quick"], cwd=VERIF, env=dict(os.environ, VERIF_REPO=str(wt), VERIF_SANDBOX=str(sb)))
+            r = sh([str(VERIF / "check"), c, "--tier", "quick"], cwd=VERIF, env={k: v for k, v in dict(os.environ, VERIF_REPO=str(wt), VERIF_SANDBOX=str(sb)).items() if k != "VERIF_SCRATCH"})
             nv = sum(1 for ln in r.stdout.splitlines() if ln.startswith("VIOLATION"))
             res["checks"][c] = {"rc": r.returncode, "violations": nv, "wall_s": round(time.time() - t0, 1)}
             if r.returncode == 2:
